@@ -21,6 +21,8 @@ func init() {
 
 var typeAnnot = regexp.MustCompile(`:[a-z0-9]+`)
 
+var convLit = regexp.MustCompile(`conv<u?int[0-9]*>\((-?[0-9]+)\)`)
+
 func stripTypes(s string) string { return typeAnnot.ReplaceAllString(s, "") }
 
 func ldapResultRef(tag string, controls bool) string {
@@ -222,6 +224,13 @@ func checkC04(c *Ctx) {
 			r.fr.fieldsOf(r.retExpr[0][1:], "", got, 0)
 			want := cr.expect(unset)
 			diff := ""
+			// a converted integer literal is that literal
+			for k, v := range got {
+				got[k] = convLit.ReplaceAllString(v, "$1")
+			}
+			for k, v := range want {
+				want[k] = convLit.ReplaceAllString(v, "$1")
+			}
 			for _, k := range sortedKeys(want) {
 				if got[k] != want[k] {
 					if _, set := got[k]; !set && (want[k] == "conv<int16>(0)" || want[k] == "0") {
